@@ -442,7 +442,9 @@ func (d *decoder) parseDefinitionMessage(recordHeader byte) (*defmsg, error) {
 			d.opts.logger.Println("parseDefinitionMessage: warning: 0 fields")
 			d.opts.logger.Println("parseDefinitionMessage: message:", dm)
 		}
-		return &dm, nil
+		if recordHeader&devDataMask != devDataMask {
+			return &dm, nil
+		}
 	}
 
 	if err = d.readFull(d.tmp[0 : 3*uint16(dm.fields)]); err != nil {
